@@ -5,7 +5,7 @@
     validated against cdshealpix by the correspondence run (assumption A-hpx). *)
 From Coq Require Import List NArith.
 From MOC.Base Require Import RangeSet.
-From Coq Require Import Permutation.
+From Coq Require Import Permutation Sorted.
 From MOC.Model Require Import Qty Query Build Neigh NeighHpx NeighTF FloodFill FloodFillProofs.
 Import ListNotations.
 Open Scope N_scope.
@@ -113,11 +113,12 @@ Example C17_nonvacuous_split :
 Proof. repeat split; vm_compute; reflexivity. Qed.
 
 (** ---------- the flood fill of split_into_joint_mocs_gen as written (Model/FloodFill.v) ----------
-    FULL statement wanted: the components are exactly the connected components of the MOC for the adjacency
-    the external edges define.  PROVED here, for ANY external-edge function (right or wrong): both loops end
+    First a weaker statement that needs NO hypothesis on the cells (C17_split_floodfill_components below is
+    the full one): for ANY external-edge function (right or wrong) both loops end
     within their fuel, no component is empty and every cell of the MOC is in exactly one component
-    (the concatenation of the components is a permutation of the cells).  MISSING for the full statement:
-    connectedness of each component and non-adjacency of two components; these are decided on every output
+    (the concatenation of the components is a permutation of the cells).  Not in this weaker statement:
+    connectedness of each component and non-adjacency of two components (one step towards it is proved below:
+    a search on a fresh vector finds the cell containing the searched edge cell); these are decided on every output
     of the implementation by the verified checker (C17_split_checker_yes / _no). *)
 Theorem C17_split_floodfill_partition_partial : forall maxd dmax (ext : N -> N -> list N) cells,
   maxd <= 64 -> Forall (fun c => fst c <= maxd) cells ->
@@ -129,6 +130,58 @@ Proof. exact split_partition. Qed.
 Theorem C17_zuniq_roundtrip : forall maxd d i, d <= maxd -> maxd <= 64 ->
   ff_from_zuniq maxd (ff_zuniq maxd d i) = (d, i).
 Proof. exact from_zuniq_zuniq. Qed.
+
+(** why the binary search only has to look at the elements i-1 and i: in a sorted vector whose other
+    elements are outside the interval [lo, hi) that contains both z and the key, the number of elements
+    below the key is the position of z, or that position plus one *)
+Theorem C17_floodfill_lookup_position : forall (before after : list N) (z lo hi key : N),
+  StronglySorted N.lt (before ++ z :: after) -> lo <= z < hi -> lo <= key < hi ->
+  Forall (fun y => y < lo \/ hi <= y) (before ++ after) ->
+  ff_count_lt key (before ++ z :: after) = (if z <? key then S (length before) else length before).
+Proof. exact lookup_position. Qed.
+
+(** one search of the flood fill on a fresh vector (sorted, pairwise non-overlapping cells of depth <= dmax):
+    if the cell a of the MOC contains the searched depth-dmax cell x, the search flags exactly a and pushes it *)
+Theorem C17_floodfill_search_finds_container : forall maxd dmax, maxd <= 64 -> dmax <= maxd ->
+  forall bc a ac stack x,
+  Forall (fun c => fst c <= dmax) (bc ++ a :: ac) ->
+  StronglySorted N.lt (map (zun maxd) (bc ++ a :: ac)) ->
+  Forall (disj maxd a) (bc ++ ac) ->
+  contains dmax a x ->
+  ff_visit maxd dmax (map (fun c : N * N => 2 * zun maxd c) (bc ++ a :: ac), stack) x
+  = (set_flag (length bc) (map (fun c : N * N => 2 * zun maxd c) (bc ++ a :: ac)), stack ++ [zun maxd a]).
+Proof. exact visit_finds_container. Qed.
+
+(** the flood fill computes reachability classes, for ANY external-edge function: with
+    R a b := "some cell of ext a lies inside the cell b of the MOC", every component is exactly the set of
+    the cells reachable through R from the first cell that was still there, listed in vector order, and the
+    next component is computed on the cells that are left (SplitSpec).  Hypotheses: the cells are those of a
+    MOC of depth dmax - depth <= dmax, sorted by zuniq, pairwise non-overlapping.
+    What remains outside this theorem: that cdshealpix's external_edge of a cell is the set of the depth-dmax
+    neighbours of its border sub-cells (validated at run time: neighbour tables compared cell by cell, and the
+    verified checker on every output). *)
+Theorem C17_split_floodfill_components : forall maxd dmax, maxd <= 64 -> dmax <= maxd ->
+  forall (ext : N -> N -> list N) cells,
+  Forall (fun c => fst c <= dmax) cells ->
+  StronglySorted N.lt (map (zun maxd) cells) ->
+  ForallOrdPairs (disj maxd) cells ->
+  exists comps, ff_split maxd dmax ext cells = Some comps /\ SplitSpec dmax ext cells comps.
+Proof. exact split_components. Qed.
+
+(** one search of the flood fill, on ANY vector (some cells already visited): the unvisited cell containing the
+    searched edge cell - there is at most one - is flagged and pushed, nothing else changes *)
+Theorem C17_floodfill_search_general : forall maxd dmax, maxd <= 64 -> dmax <= maxd ->
+  forall bc e ac stack x,
+  fcells_ok maxd dmax (bc ++ e :: ac) -> contains dmax (fst e) x ->
+  ff_visit maxd dmax (map (enc maxd) (bc ++ e :: ac), stack) x =
+  if snd e then (map (enc maxd) (bc ++ e :: ac), stack)
+  else (map (enc maxd) (mark_at (length bc) (bc ++ e :: ac)), stack ++ [zun maxd (fst e)]).
+Proof. exact visit_general. Qed.
+
+Theorem C17_floodfill_search_nothing : forall maxd dmax, maxd <= 64 -> dmax <= maxd ->
+  forall l stack x, fcells_ok maxd dmax l -> (forall e, In e l -> ~ contains dmax (fst e) x) ->
+  ff_visit maxd dmax (map (enc maxd) l, stack) x = (map (enc maxd) l, stack).
+Proof. exact visit_nothing. Qed.
 
 Example C17_nonvacuous_floodfill :
   ff_split 29 1 (ext_of (nb4 1) 1) [(0, 0); (0, 2); (1, 20)] = Some [[(0, 0)]; [(0, 2)]; [(1, 20)]] /\
@@ -153,3 +206,8 @@ Print Assumptions C17_tf_contracted_is_dual.
 Print Assumptions C17_tf_contracted_d08_refuted.
 Print Assumptions C17_split_floodfill_partition_partial.
 Print Assumptions C17_zuniq_roundtrip.
+Print Assumptions C17_floodfill_lookup_position.
+Print Assumptions C17_floodfill_search_finds_container.
+Print Assumptions C17_split_floodfill_components.
+Print Assumptions C17_floodfill_search_general.
+Print Assumptions C17_floodfill_search_nothing.
